@@ -4,6 +4,8 @@ No odxtools import.  A database is a dict {file name: XML text} of its ODX docum
 .odx-c); edits are applied with xml.etree to the .odx-d documents and yield a new dict, which the check
 writes to emit.scratch_dir() and loads through the real loader.  Everything here is deterministic.
 
+DOP edits (the DATA-OBJECT-PROP is edited IN PLACE, every referring PARAM stays textually identical):
+                  dop-bit-length | dop-data-type | dop-compu-category   (every DATA-OBJECT-PROP of every layer)
 edit alphabet (DESIGN 5/C18):
   service edits : delete | add (copy, new name, new request, new constant request prefix) | rename (same request)
   parameter edits (every PARAM of every REQUEST / POS-RESPONSE / NEG-RESPONSE):
@@ -26,6 +28,7 @@ ET.register_namespace("xsi", XSI_NS)
 Files = Dict[str, str]
 
 SERVICE_EDITS = ["delete", "add", "rename"]
+DOP_EDITS = ["dop-bit-length", "dop-data-type", "dop-compu-category"]
 PARAM_EDITS = ["byte-position", "bit-length", "coded-value", "semantic", "data-type", "linked-dop"]
 MSG_COLLECTIONS = [("REQUESTS", "REQUEST"), ("POS-RESPONSES", "POS-RESPONSE"), ("NEG-RESPONSES", "NEG-RESPONSE")]
 LAYER_TAGS = ["PROTOCOL", "FUNCTIONAL-GROUP", "BASE-VARIANT", "ECU-VARIANT", "ECU-SHARED-DATA"]
@@ -183,7 +186,28 @@ def spec_shared() -> Dict[str, Any]:
             "comparam_subsets": [subset], "comparam_specs": [cspec]}
 
 
-GENERATED = {"flat": spec_flat, "tree": spec_tree, "single": spec_single, "shared": spec_shared}
+AWKWARD_NAMES = ["2x_flips", "return", "index", "count", "copy", "get", "plain"]
+
+
+def spec_names() -> Dict[str, Any]:
+    """Services whose short names cannot be python identifiers or collide with list attributes (digit-leading, keyword,
+    `index` / `count` / `copy` / `get`), in a base variant called `class` inherited by an ECU variant called `2nd`.
+    Every service has its own request and positive response with a constant, a VALUE and a MATCHING-REQUEST-PARAM, so
+    that every parameter edit applies to every awkward name."""
+    msgs: List[Dict[str, Any]] = []
+    svcs: List[Dict[str, Any]] = []
+    for i, n in enumerate(AWKWARD_NAMES):
+        msgs.append({"kind": "REQUEST", "name": f"RQ_{i}", "params": [cc("sid", 0x40 + i, 0, semantic="SERVICE-ID"), val("arg", "n8", 1)]})
+        msgs.append({"kind": "POS-RESPONSE", "name": f"PR_{i}", "params": [cc("sid", 0x80 + i, 0), mrp("arg", 1, 1, 1), val("res", "n16", 2)]})
+        svcs.append({"name": n, "request": f"RQ_{i}", "pos": [f"PR_{i}"]})
+    base = {"type": "BASE-VARIANT", "name": "class", "dops": [{"name": "n8", "dct": U(8)}, {"name": "n8b", "dct": U(8)}, {"name": "n16", "dct": U(16)},
+                                                              {"name": "n16b", "dct": U(16)}, {"name": "unused", "dct": U(8)}],
+            "msgs": msgs, "svcs": svcs}
+    ecu = {"type": "ECU-VARIANT", "name": "2nd", "parents": [{"layer": "class", "not_inherited": {"comms": ["count"]}}]}
+    return {"containers": [{"name": "c18names", "layers": [base, ecu]}]}
+
+
+GENERATED = {"names": spec_names, "flat": spec_flat, "tree": spec_tree, "single": spec_single, "shared": spec_shared}
 
 
 def pdx_files(path: str) -> Files:
@@ -600,7 +624,77 @@ def edit_param(files: Files, edit: str, mid: str, idx: int) -> Tuple[Files, Dict
     return serialize(files, trees), info
 
 
+def dop_targets(files: Files) -> List[str]:
+    trees = parse(files)
+    return [d.get("ID") or "" for fn in sorted(trees) for layer in layers_of(trees[fn])
+            for d in layer.findall("DIAG-DATA-DICTIONARY-SPEC/DATA-OBJECT-PROPS/DATA-OBJECT-PROP")]
+
+
+def edit_dop(files: Files, edit: str, dop_id: str) -> Tuple[Files, Dict[str, Any]]:
+    """Edit a DATA-OBJECT-PROP in place.  In the envelope only if everything that uses the DOP is a PARAM of a request /
+    response linking it by ID (then the reference knows exactly which services change): no short-name links, no
+    structures, tables, fields or other dictionary objects referring to it."""
+    trees = parse(files)
+    dop, layer, root = find_id(trees, "DATA-OBJECT-PROP", dop_id)
+    name = text(dop, "SHORT-NAME")
+    users: List[ET.Element] = []
+    for r in trees.values():
+        pm = parent_map(r)
+        for e in r.iter():
+            if e.tag.endswith("SNREF") and e.get("SHORT-NAME") == name and e.tag != "DIAG-COMM-SNREF":
+                raise NotApplicable("DOP is (or may be) linked by short name")
+            if e.get("ID-REF") == dop_id:
+                par = pm.get(e)
+                holder = pm.get(pm.get(par)) if par is not None and pm.get(par) is not None else None
+                if e.tag != "DOP-REF" or par is None or par.tag != "PARAM" or holder is None or \
+                        holder.tag not in ("REQUEST", "POS-RESPONSE", "NEG-RESPONSE", "GLOBAL-NEG-RESPONSE"):
+                    raise NotApplicable("DOP is used by something else than a request/response parameter")
+                users.append(par)
+    info: Dict[str, Any] = {"dop": dop_id, "users": len(users)}
+    dct = dop.find("DIAG-CODED-TYPE")
+    sd = std_int_dct(dct)
+    if edit == "dop-bit-length":
+        if sd is None:
+            raise NotApplicable("DOP is not a plain integer STANDARD-LENGTH-TYPE")
+        nb = sd[1] + 8 if sd[1] + 8 <= 32 else sd[1] - 8
+        info["old"], info["new"] = sd[1], nb
+        set_text(dop, "DIAG-CODED-TYPE/BIT-LENGTH", nb)
+    elif edit == "dop-data-type":
+        if sd is None or text(dop, "COMPU-METHOD/CATEGORY") != "IDENTICAL":
+            raise NotApplicable("DOP is not a plain integer STANDARD-LENGTH-TYPE with an IDENTICAL conversion")
+        flip = {"A_UINT32": "A_INT32", "A_INT32": "A_UINT32"}
+        for p in users:
+            v = text(p, "PHYSICAL-DEFAULT-VALUE") or text(p, "PHYS-CONSTANT-VALUE")
+            if v is not None:
+                try:
+                    if not 0 <= int(v) < (1 << (sd[1] - 1)):
+                        raise NotApplicable("a default/constant value is not representable in the other integer type")
+                except ValueError:
+                    raise NotApplicable("non-integer default value")
+        if dop.find("INTERNAL-CONSTR") is not None or dop.find("PHYS-CONSTR") is not None:
+            raise NotApplicable("DOP has constraints")
+        dct.set("BASE-DATA-TYPE", flip[sd[0]])
+        pt = dop.find("PHYSICAL-TYPE")
+        if pt is not None and pt.get("BASE-DATA-TYPE") == sd[0]:
+            pt.set("BASE-DATA-TYPE", flip[sd[0]])
+        info["old"], info["new"] = sd[0], flip[sd[0]]
+    elif edit == "dop-compu-category":
+        cm = dop.find("COMPU-METHOD")
+        if sd is None or cm is None or text(cm, "CATEGORY") != "IDENTICAL" or len(cm) != 1:
+            raise NotApplicable("DOP is not a plain integer with an IDENTICAL conversion")
+        set_text(cm, "CATEGORY", "LINEAR")
+        cm.append(ET.fromstring("<COMPU-INTERNAL-TO-PHYS><COMPU-SCALES><COMPU-SCALE><COMPU-RATIONAL-COEFFS><COMPU-NUMERATOR><V>0</V><V>1</V>"
+                                "</COMPU-NUMERATOR><COMPU-DENOMINATOR><V>1</V></COMPU-DENOMINATOR></COMPU-RATIONAL-COEFFS></COMPU-SCALE>"
+                                "</COMPU-SCALES></COMPU-INTERNAL-TO-PHYS>"))
+        info["old"], info["new"] = "IDENTICAL", "LINEAR (1*x+0)"
+    else:
+        raise ValueError(edit)
+    return serialize(files, trees), info
+
+
 def apply_edit(files: Files, edit: str, target: List[Any]) -> Tuple[Files, Dict[str, Any]]:
+    if edit in DOP_EDITS:
+        return edit_dop(files, edit, target[0])
     if edit == "delete":
         return edit_delete(files, target[0])
     if edit == "add":
